@@ -850,7 +850,7 @@ def gen_cases(rng, tier):
     cases = [c for c in cases if c['kind'] != 'ext'] + extc[:ne]
     # --- resolve
     nr = 1500 if thorough else 250
-    names = ['a.fasta', 'a.fasta.gz', 'a.gz', 'x.zip', 'x.tar.gz', 'x.tgz', 'x.tar', 'x.tar.bz2', 'x.txz', 'zip', 'a.zip.fasta', 'gz',
+    names = ['a.fasta', 'a.fasta.gz', 'a.gz', 'x.zip', 'x.tar.gz', 'x.tgz', 'x.tar', 'x.tar.bz2', 'x.txz', 'x.tbz2', 'x.tar.xz', 'd/y.fa.tgz', 'q.gff.tbz2', 'zip', 'a.zip.fasta', 'gz',
              '-', '--', '- ', 'http://h/a.fa', 'ftp://h/a', 'a://', 'http://h/d/a.fa', 'https://h.org/x/y.fasta.gz', 'http://h/a.zip',
              'ftp://h/p/q.tar.gz?dl=1', 'http://h/a*.zip', 'http://h', 'http://h/', 'file:///tmp/x.gz#frag', 'http://h/x.gff', 'x+y://h/a.tgz#f?g',
              'http://h/a.zip?x=/b.fa', 'HTTP://H/A.GZ', 'a.b://h/c.gz/', 'http://h?q.zip', '0123456://x', '01234567://x', '012345678://x', 'a*.fa', 'a?.gz',
@@ -1416,6 +1416,17 @@ def spec(case, got):
         if got != exp:
             return 'extension %r should select %r, got %r' % (ext, exp, got)
         return None
+    if k == 'resolve' and case['ft'] in ('str', 'Path') and case['name']:
+        # first principles: a plain local file name with an extension shutil.unpack_archive knows is unpacked as an archive
+        import glob as _g
+        from pathlib import PurePosixPath
+        name = case['name'] if case['ft'] == 'str' else str(PurePosixPath(case['name']))
+        known = set(['.zip', '.tar', '.tar.gz', '.tgz', '.tar.bz2', '.tbz2', '.tar.xz', '.txz']) | set(e for _, exts, _ in shutil.get_unpack_formats() for e in exts)
+        plain = name != '-' and '://' not in name[:10] and not name.startswith('!data/') and not _g.has_magic(name)
+        if plain and any(name.endswith(e) for e in known):
+            if not (isinstance(got, list) and got[:2] == ['archive', name]):
+                return 'file name %r has an archive extension but is handled as %r' % (name, got)
+        return None
     if k == 'kw':
         if isinstance(got, dict):
             kws = dict(case['kw'])
@@ -1567,12 +1578,24 @@ def transports(content, what, fmt, rkw, d, cov):
     pgz2 = os.path.join(d, 'plainname')
     shutil.copy(pgz, pgz2)
     yield 'gzip via archive=gz', _cj(rd(pgz2, archive='gz', **rkw))
-    for afmt, aext in (('zip', '.zip'), ('gztar', '.tar.gz'), ('tar', '.tar')):
-        base = os.path.join(d, 'arch_' + afmt)
-        shutil.make_archive(base, afmt, os.path.join(d, 'one'))
-        yield 'archive ' + afmt, _cj(rd(base + aext, **rkw))
+    # every extension shutil.unpack_archive knows: the fixed literal list and, independently, what shutil reports at run time
+    literal = ['.zip', '.tar', '.tar.gz', '.tgz', '.tar.bz2', '.tbz2', '.tar.xz', '.txz']
+    runtime = {e: name for name, exts, _ in shutil.get_unpack_formats() for e in exts}
+    assert set(literal) <= set(runtime), 'this Python cannot unpack %r' % sorted(set(literal) - set(runtime))
+    made = {}
+    for aext in sorted(set(literal) | set(runtime), key=lambda e: (e not in literal, e)):
+        afmt = runtime[aext]
+        if afmt not in made:
+            made[afmt] = shutil.make_archive(os.path.join(d, 'arch_' + afmt), afmt, os.path.join(d, 'one'))
+        named = os.path.join(d, 'named_' + afmt + aext)          # the same archive under each of its extensions
+        shutil.copy(made[afmt], named)
+        yield 'archive *' + aext, _cj(rd(named, **rkw))
+        if what == 'seqs':      # F42 (fixed): the lazy generator must not outlive the unpacked temporary directory
+            yield 'iter_ archive *' + aext, _cj(BioBasket(list(sugar.iter_(named, **rkw))))
+        cov.setdefault('archive_extensions_read', {}).setdefault(what, set()).add(aext)
+    for afmt in ('zip', 'gztar', 'tar'):
         noext = os.path.join(d, 'noext_' + afmt)
-        shutil.copy(base + aext, noext)
+        shutil.copy(made[afmt], noext)
         yield 'archive=%s' % afmt, _cj(rd(noext, archive=afmt, **rkw))
     yield 'glob', _cj(rd(os.path.join(d, 'one', '*.' + ext), **rkw))
     yield 'glob ?', _cj(rd(os.path.join(d, 'o?e', 'f.*'), **rkw))
@@ -1716,17 +1739,23 @@ def extra_checks(rng, tier, cov):
                 yield _viol(case, {'e': type(e).__name__}, 'transport raised %s: %s' % (type(e).__name__, traceback.format_exc()[-600:]))
         finally:
             shutil.rmtree(d, ignore_errors=True)
+    if 'archive_extensions_read' in cov:
+        cov['archive_extensions_read'] = {k: sorted(v) for k, v in cov['archive_extensions_read'].items()}
+        for what_ in ('seqs', 'fts'):
+            missing = set(['.zip', '.tar', '.tar.gz', '.tgz', '.tar.bz2', '.tbz2', '.tar.xz', '.txz']) - set(cov['archive_extensions_read'].get(what_, []))
+            if missing:
+                yield _viol({'kind': 'transport', 'what': what_}, sorted(missing), 'archive extensions never exercised for %s: %s' % (what_, sorted(missing)))
     cov['transport_note'] = 'transport independence is relational testing only (partial)'
 
 
-LEVEL_TEXT = ('Machine-checked Coq theorems (29, no axioms) over an executable model of sugar._io: detect() restores the position of any '
+LEVEL_TEXT = ('Machine-checked Coq theorems (31, no axioms) over an executable model of sugar._io: detect() restores the position of any '
               'handle and equals "first accepting sniffer of the regenerated FMTS_ALL chain" on the remaining content for text and '
               'binary handles; WHOLE-CHAIN detection soundness detect(render_d x) = d, with rejection lemmas for every earlier sniffer, '
               'for FASTA / Stockholm / GFF3 (writer models), SJSON / GenBank (first-line shapes), TSV / CSV of any length incl. beyond '
               'the 1000-character window (writer model compared with pandas output), BLAST outfmt 6 / 10 and MMseqs2 fmtmode 0 (with the '
               'documented identity discriminator as hypothesis, exact float() rounding thresholds), MMseqs2 fmtmode 4 (name row), BLAST '
               'outfmt 7 (comment lines) and Infernal tblout 1/2/3 (header + ruler); every declared filename extension selects its own '
-              'format; the write-side decision (archive / to-string / handle / file, fmt option or extension, the three error cases) '
+              'format; the regenerated ARCHIVE_EXTS holds every extension shutil.unpack_archive knows, so such names are unpacked;  the write-side decision (archive / to-string / handle / file, fmt option or extension, the three error cases) '
               'equals a declarative table, fmt= wins, writing by extension selects the declared format also for Path and archives; '
               'reading with fmt omitted hands the same handle state and options to the same plugin as reading with the detected fmt '
               'given, and fails exactly when nothing is detected; keyword options reach the plugin unchanged and identically through '
